@@ -48,6 +48,7 @@ structure State where
   connected : Bool := true
   disconnectQueued : Bool := false
   toFilters : List QMsg := []   -- messages that dispatch handed to filters / handlers
+  failedSerial : Option Nat := none   -- the serial a message kept from a send that failed after it had been given one
   deriving Repr, Inhabited
 
 def SERIAL_MOD : Nat := 4294967296
@@ -115,6 +116,19 @@ def sendPreset (st : State) (s : Nat) (finite notify : Bool) : State × Option N
   let c : Call := { serial := s, hasTimeout := finite, timeoutArmed := finite, timeoutLink := true,
                     inTable := true, notify := notify }
   (settle { st with calls := st.calls ++ [c] }, some s)
+
+/-- `dbus_connection_send_with_reply` failing after the message was given its serial (no memory, or the application's
+    add-timeout function refuses): the serial is used up - the message keeps it -, no call is registered -/
+def sendFail (st : State) : State × Option Nat :=
+  if !st.connected then (st, none) else
+  let (s, n') := nextSerial st.nextSerial
+  ({ st with nextSerial := n', failedSerial := some s }, some s)
+
+/-- the application tries again with the very same message: it goes out under the serial it already has -/
+def retry (st : State) (finite notify : Bool) : State × Option Nat :=
+  match st.failedSerial with
+  | some s => sendPreset { st with failedSerial := none } s finite notify
+  | none => (st, none)
 
 /-- read everything the peer has written (`dbus_connection_read_write` without dispatch) -/
 def pump (st : State) : State :=
@@ -186,6 +200,8 @@ def block (st : State) (i : Nat) : Option State :=
 inductive Ev
   | send (finite notify : Bool)
   | sendPreset (serial : Nat) (finite notify : Bool)
+  | sendFail
+  | retry (finite notify : Bool)
   | peer (rs tag : Nat)            -- the peer writes a message carrying REPLY_SERIAL `rs`
   | pump
   | dispatch
@@ -197,6 +213,8 @@ inductive Ev
 def step (st : State) : Ev → State
   | .send f n => (send st f n).1
   | .sendPreset s f n => (sendPreset st s f n).1
+  | .sendFail => (sendFail st).1
+  | .retry f n => (retry st f n).1
   | .peer rs tag => { st with wire := st.wire ++ [{ rs := rs, kind := .reply tag }] }
   | .pump => pump st
   | .dispatch => dispatch st
